@@ -30,6 +30,8 @@ def asUnsigned (ubits : Nat) (x : Int) : Int := x % (2 : Int) ^ ubits
 
 /-- Why a derived function panicked. -/
 inductive PanicKind | indexOOB | sliceOrder | arithOverflow
+  /-- a configuration for which the macro generates no code at all (it panics or aborts at expansion time) -/
+  | unreachableConfig
 deriving Repr, DecidableEq, Inhabited
 
 /-- Which unchecked assumption was false. -/
